@@ -86,6 +86,7 @@ type world struct {
 	tmpls    []tmplCfg
 	postLogout string
 	endSession bool
+	esQuery    url.Values // parameters the published end-session endpoint carries itself
 	grace    int
 	logout   string
 	snaps    []jar
@@ -171,11 +172,38 @@ func newWorld(sc int, rng interface{ Intn(int) int }) *world {
 			w.p.doc = M{"authorization_endpoint": "/auth"}
 		}
 	}
+	// discovery documents as providers publish them: optional metadata in legal but unusual combinations, none of which changes what
+	// the middleware has to do (PKCE as configured, the endpoints as published)
+	if extra := []M{
+		nil,
+		{"code_challenge_methods_supported": []string{"S256"}, "response_types_supported": []string{"code"}, "subject_types_supported": []string{"public"}, "id_token_signing_alg_values_supported": []string{"RS256", "ES256"}},
+		{"code_challenge_methods_supported": []string{"plain"}, "token_endpoint_auth_methods_supported": []string{"client_secret_post"}, "grant_types_supported": []string{"authorization_code"}},
+		{"code_challenge_methods_supported": []string{"plain", "S256"}, "scopes_supported": []string{"openid"}, "claims_supported": []string{"sub"}, "response_modes_supported": []string{"form_post"}},
+		{"code_challenge_methods_supported": []string{}, "require_pushed_authorization_requests": false, "id_token_signing_alg_values_supported": []string{"none"}, "userinfo_endpoint": issuerURL + "/userinfo",
+			"registration_endpoint": issuerURL + "/register", "introspection_endpoint": issuerURL + "/introspect", "frontchannel_logout_supported": true, "backchannel_logout_supported": true,
+			"check_session_iframe": issuerURL + "/session.html", "claims_parameter_supported": false, "request_uri_parameter_supported": true},
+	}[sc%5]; extra != nil {
+		if w.p.doc == nil {
+			w.p.doc = M{}
+		}
+		for k, v := range extra {
+			w.p.doc[k] = v
+		}
+		T.stat("handler.discovery-document.optional-metadata")
+	}
 	w.pkce = rng.Intn(2) == 0
 	w.force = rng.Intn(3) == 0
 	w.grace = []int{60, 60, 300, 30}[rng.Intn(4)]
 	w.endSession = rng.Intn(4) != 0
 	w.p.endSession = w.endSession
+	if w.endSession && sc%7 == 3 { // an end-session endpoint that carries parameters of its own (policy, locale), as some providers publish
+		if w.p.doc == nil {
+			w.p.doc = M{}
+		}
+		w.esQuery = url.Values{"p": {"b2c_1_signin"}, "ui_locales": {"en de"}}
+		w.p.doc["end_session_endpoint"] = issuerURL + "/logout?" + w.esQuery.Encode()
+		T.stat("handler.discovery-document.end-session-with-query")
+	}
 	w.postLogout = []string{"", "/", "/bye", "https://other.test/bye"}[rng.Intn(4)]
 	w.excluded = [][]string{nil, {"/public"}, {"/public", "/health"}}[rng.Intn(3)]
 	w.domains = [][]string{nil, {"example.com"}, {"example.com", "corp.test"}}[rng.Intn(3)]
@@ -750,12 +778,23 @@ func (w *world) observe(rs reqSpec, r *http.Request, clientHdrs [][]string, rec 
 		if len(st) < 32 || len(no) < 32 {
 			T.oracle("C03", "state or nonce shorter than 32 characters", M{"state": len(st), "nonce": len(no)}, w.replay())
 		}
+		if w.pkce && q.Get("code_challenge") == "" {
+			T.oracle("C03", "PKCE is enabled but the login initiation carries no code challenge: the login it starts is not bound to a verifier", M{"location": trunc(loc, 300), "discovery_document_extras": fmt.Sprint(w.p.doc)}, w.replay())
+		}
 		if q.Get("code_challenge") != "" && q.Get("code_challenge_method") != "S256" {
 			T.oracle("C03", "code challenge sent without S256 method", nil, w.replay())
 		}
 	case rec.Code == 302 && w.endSession && strings.HasPrefix(loc, issuerURL+"/logout"):
 		lu, _ := url.Parse(loc)
 		obs["class"] = "redirectEndSession"
+		if lu.Path != "/logout" {
+			T.oracle("C11", "logout redirect does not go to the provider's end-session endpoint (path changed)", M{"location": trunc(loc, 200)}, w.replay())
+		}
+		for k, vs := range w.esQuery {
+			if got := lu.Query()[k]; len(got) != 1 || got[0] != vs[0] {
+				T.oracle("C11", "logout redirect does not go to the provider's end-session endpoint: a parameter the published endpoint carries is missing or changed", M{"parameter": k, "published": vs[0], "location_has": got, "location": trunc(loc, 300)}, w.replay())
+			}
+		}
 		obs["loc"] = M{"hint": w.tokID(lu.Query().Get("id_token_hint")), "post": lu.Query().Get("post_logout_redirect_uri")}
 	case rec.Code == 302 && path == w.logout:
 		obs["class"] = "redirectPostLogout"
